@@ -33,6 +33,11 @@ package ledger
 // only; see c08SweepAlways...). "LRU on" uses the real cache code with capacity 256
 // (c08LRUSmall); the upstream capacities (c08LRUReal, ~1 s per OpenLedger) run to depth 2 (3).
 //
+// Plus the dedicated "rowid-family" plan (LRU on, lookback 0): alphabet {C opts into X, C opts
+// out, C closes its account while a brand-new account is funded, C is funded again, flushMax,
+// reload}, ALL interleavings up to length 9 with at most 3 flushes and at most 1 reload (pure
+// restart, nothing pending), from "C exists on disk, not opted in" (2931 transitions).
+//
 // The sweep: LookupAccount, LookupWithoutRewards, LookupAsset, LookupApplication,
 // GetCreatorForRound, LookupKv for every address / creatable id / box key ever mentioned
 // (plus never-existing ones; resources also across types) at EVERY round 0..latest+1.
@@ -62,6 +67,10 @@ package ledger
 //  bytes), DETECTED at depth 2 ([u= flushMax]) after u= and the V0<->V1 toggle were added;
 //  C08-B lruResources.write lets a stale row replace a "deleted" placeholder - DETECTED
 //  ([flushMax u- flushMax pay] under the sweep-after-blocks policy).
+//  C08-r2A (accountsNewRoundImpl keeps the account row id in the "came and went" placeholder; a
+//  later holding is inserted under a dead row id and is lost after a restart): beyond the depth
+//  bound of the general plans, DETECTED since the dedicated "rowid-family" plan was added
+//  ([c-in c-out closeC+newE flushMax fundC c-in flushMax reload], depth 8).
 //  (DESIGN's "drop the persistedData.Round == currentDbRound re-check" is equivalent in a
 //   sequential run - DB round and cached round never differ without a concurrent commit -
 //   and belongs to the E-SCHED part.)
@@ -91,13 +100,17 @@ const (
 	c08OpOModify
 	c08OpODelete
 	c08OpPay
+	c08OpCIn     // "rowid" family: C opts into asset X
+	c08OpCOut    // C closes out of asset X
+	c08OpCloseCE // C closes its account to A while a brand-new account E<round> is funded
+	c08OpFundC   // A funds (re-creates) C
 	c08OpFlush1
 	c08OpFlushMax
 	c08OpReload
 	c08NumOps
 )
 
-var c08OpNames = []string{"u+", "u~", "u=", "u-", "o+", "o~", "o-", "pay", "flush1", "flushMax", "reload"}
+var c08OpNames = []string{"u+", "u~", "u=", "u-", "o+", "o~", "o-", "pay", "c-in", "c-out", "closeC+newE", "fundC", "flush1", "flushMax", "reload"}
 
 type c08Variant struct {
 	cfg     c08Cfg
@@ -105,6 +118,12 @@ type c08Variant struct {
 	alpha   string // name of the op subset
 	mask    uint   // allowed ops
 	policy  int    // when the sweep runs along a path
+	// family: the dedicated small alphabet {C opts into X, C opts out, C closes while a new
+	// account is created, C is funded again, flushMax, reload} explored to depth 9 over all
+	// interleavings with at most 3 flushes and at most 1 reload (a pure restart: only when
+	// nothing is pending), from "C exists on disk, not opted in". It reaches account-row-id
+	// reuse histories (opt-in+opt-out inside one commit, close, re-fund, opt-in again, restart).
+	family bool
 }
 
 // Sweep policies. Lookups have side effects on the LRU caches (pending writes, not-found
@@ -139,7 +158,9 @@ var (
 	c08AlphaUser      = c08Mask(c08OpUCreate, c08OpUModify, c08OpUSame, c08OpUDelete, c08OpPay, c08OpFlushMax, c08OpReload)
 	c08AlphaUserNoPay = c08Mask(c08OpUCreate, c08OpUModify, c08OpUSame, c08OpUDelete, c08OpFlushMax, c08OpReload)
 	c08AlphaOwner     = c08Mask(c08OpOCreate, c08OpOModify, c08OpODelete, c08OpPay, c08OpFlushMax, c08OpReload)
-	c08AlphaFull      = uint(1<<c08NumOps - 1)
+	c08AlphaFull      = uint(1<<c08NumOps-1)&^c08AlphaRowID | 1<<c08OpFlushMax | 1<<c08OpReload
+	// c08AlphaRowID: the dedicated "account row id" family (see c08Variant.family)
+	c08AlphaRowID = c08Mask(c08OpCIn, c08OpCOut, c08OpCloseCE, c08OpFundC, c08OpFlushMax, c08OpReload)
 )
 
 // c08Sys is one explored instance. Apply only advances a cheap shadow model (which ops
@@ -155,6 +176,9 @@ type c08Sys struct {
 	// shadow model
 	shLatest, shDB basics.Round
 	shUser, shOwn  bool
+	shCOpt         bool // family: C holds asset X
+	shFlushes      int
+	shReloads      int
 	ops            []int
 
 	// materialised part
@@ -248,6 +272,14 @@ func (s *c08Sys) blockTxns(op int) []*txntest.Txn {
 		}
 	case c08OpPay:
 		return []*txntest.Txn{w.txPay(w.A, w.B, 1000)}
+	case c08OpCIn:
+		return []*txntest.Txn{w.txAssetXfer(w.C, w.C, s.asset, 0)}
+	case c08OpCOut:
+		return []*txntest.Txn{w.txAssetCloseOut(w.C, w.A, s.asset)}
+	case c08OpCloseCE:
+		return []*txntest.Txn{w.txClose(w.C, w.A), w.txPay(w.A, c08Addr(fmt.Sprintf("E%d", s.h.NextRound())), 1_000_000)}
+	case c08OpFundC:
+		return []*txntest.Txn{w.txPay(w.A, w.C, 5_000_000)}
 	}
 	return nil
 }
@@ -298,17 +330,46 @@ func (s *c08Sys) apply(op int) (bool, error) {
 		s.shLatest++
 	case c08OpPay:
 		s.shLatest++
+	case c08OpCIn:
+		if !s.shUser || s.shCOpt {
+			return false, nil
+		}
+		s.shCOpt = true
+		s.shLatest++
+	case c08OpCOut:
+		if !s.shCOpt {
+			return false, nil
+		}
+		s.shCOpt = false
+		s.shLatest++
+	case c08OpCloseCE:
+		if !s.shUser || s.shCOpt {
+			return false, nil
+		}
+		s.shUser = false
+		s.shLatest++
+	case c08OpFundC:
+		if s.shUser {
+			return false, nil
+		}
+		s.shUser = true
+		s.shLatest++
 	case c08OpFlush1:
 		if s.shDB+1 >= s.shMaxFlush() { // == MaxFlush is flushMax
 			return false, nil
 		}
 		s.shDB++
 	case c08OpFlushMax:
-		if s.shMaxFlush() <= s.shDB {
+		if s.shMaxFlush() <= s.shDB || (s.v.family && s.shFlushes >= 3) {
 			return false, nil
 		}
+		s.shFlushes++
 		s.shDB = s.shMaxFlush()
 	case c08OpReload:
+		if s.v.family && (s.shReloads >= 1 || s.shMaxFlush() > s.shDB) {
+			return false, nil
+		}
+		s.shReloads++
 		if s.shMaxFlush() > s.shDB {
 			s.shDB = s.shMaxFlush()
 		}
@@ -433,6 +494,17 @@ func (s *c08Sys) setup() error {
 			}
 		}
 	}
+	if s.v.family {
+		if en, err := h.AddBlock(w.txPay(w.A, w.C, 5_000_000)); err != nil || !en {
+			return ve.Violationf("C08:harness", "harness: family setup block: enabled=%v err=%v", en, err)
+		}
+		if en, err := h.Flush(h.MaxFlush()); err != nil || !en {
+			return ve.Violationf("C08:harness", "harness: family setup flush: enabled=%v err=%v", en, err)
+		}
+		if err := s.sweep(); err != nil {
+			return err
+		}
+	}
 	s.tm.newNs.Add(int64(time.Since(t0)))
 	s.tm.news.Add(1)
 	return nil
@@ -477,6 +549,9 @@ func c08NewSys(w *c08World, v c08Variant, r *ve.Run, tm *c08Timers) *c08Sys {
 	s := &c08Sys{w: w, v: v, r: r, tm: tm, shLatest: 1}
 	if v.present {
 		s.shLatest, s.shUser, s.shOwn = 3, true, true
+	}
+	if v.family {
+		s.shLatest, s.shDB, s.shUser = 2, 2, true
 	}
 	return s
 }
@@ -538,6 +613,7 @@ func TestVerif_C08(t *testing.T) {
 		add(lru, "user", c08AlphaUser, 4, onlyPresent, c08SweepBlocks)
 		add(lru, "full", c08AlphaFull, 3, onlyPresent, c08SweepAlways)
 		add(off, "full", c08AlphaFull, 3, onlyPresent, c08SweepEnd)
+		add([]c08Cfg{lruS0}, "rowid-family", c08AlphaRowID, 9, []bool{false}, c08SweepBlocks)
 		add(lru, "full", c08AlphaFull, 3, []bool{false}, c08SweepBlocks)
 		add(lru, "user", c08AlphaUser, 4, []bool{false}, c08SweepBlocks)
 		add(lru, "owner", c08AlphaOwner, 4, both, c08SweepBlocks)
@@ -550,6 +626,7 @@ func TestVerif_C08(t *testing.T) {
 		add(realLRU, "user+owner", userOwner, 2, onlyPresent, c08SweepAlways)
 	} else {
 		add(lru, "full", c08AlphaFull, 4, both, c08SweepBlocks)
+		add([]c08Cfg{lruS0}, "rowid-family", c08AlphaRowID, 9, []bool{false}, c08SweepBlocks)
 		add(lru, "full", c08AlphaFull, 4, both, c08SweepAlways)
 		add(off, "full", c08AlphaFull, 4, both, c08SweepEnd)
 		add(lru, "user", c08AlphaUser|1<<c08OpFlush1, 5, both, c08SweepBlocks)
@@ -582,7 +659,7 @@ func TestVerif_C08(t *testing.T) {
 explore:
 	for _, e := range plan {
 		for _, present := range e.present {
-			v := c08Variant{cfg: e.cfg, present: present, alpha: e.alpha, mask: e.mask, policy: e.policy}
+			v := c08Variant{cfg: e.cfg, present: present, alpha: e.alpha, mask: e.mask, policy: e.policy, family: e.alpha == "rowid-family"}
 			name := c08NewSys(w, v, r, &tm).name()
 			if r.WasCapped() || r.OutOfTime() {
 				skipped = append(skipped, fmt.Sprintf("%s(depth %d)", name, e.depth))
